@@ -23,4 +23,6 @@ PROPS = {
         "claimed": False,
         "rule": "real CRLs (x509.CreateRevocationList) delivered for the leaf's single distribution point: every single entry (reasons 0..10 x 6 invalidity shapes x critical flag) in base or delta; ordered pairs over a reduced alphabet split base/delta in every way; sampled lists of 2..6 entries over the full alphabet; signing time zero and non-zero; non-trivial = at least one entry for the certificate's serial",
     },
+    "C05": {"claimed": False, "rule": "wip"},
+    "C04": {"claimed": False, "rule": "wip"},
 }
